@@ -1021,43 +1021,49 @@ theorem hook_clauses_silent_on_model (endT : Option Nat) (n : Nat) (s0 : St PS) 
   unfold hookMonitor hookView
   simp [hr.err, hr.due]
 
+theorem initState_hookOf_fresh (p : Program) (gateCont : Bool) :
+    ∀ x ∈ (p.initState gateCont).ent.hookOf, x.1 < (p.initState gateCont).ent.nid := by
+  intro x hx
+  have hx' : x ∈ ((List.range (p.pre.map (·.1)).length).zip p.pre).filterMap
+      (fun q => if q.2.2.1 = 0 then none else some (q.1, q.2.2.1)) := hx
+  show x.1 < (p.pre.map (·.1)).length
+  obtain ⟨y, hy, hfy⟩ := List.mem_filterMap.mp hx'
+  have hr := (List.of_mem_zip hy).1
+  split at hfy
+  · simp at hfy
+  · simp only [Option.some.injEq] at hfy
+    subst hfy
+    simpa using hr
+
+theorem initState_lastKind_fresh (p : Program) (gateCont : Bool) :
+    ∀ x ∈ (p.initState gateCont).ent.lastKind, x.2 < (p.initState gateCont).ent.nid := by
+  intro x hx
+  show x.2 < (p.pre.map (·.1)).length
+  -- the handles of the pre-run events are their creation indices
+  have hx' : x ∈ ((List.range (p.pre.map (·.1)).length).zip (p.pre.map (·.1))).foldl
+      (fun acc q => (q.2.kind, q.1) :: acc.filter (fun y => y.1 != q.2.kind)) [] := hx
+  have key : ∀ (l : List (Nat × Spec)) (acc : List (Nat × Nat)) (N : Nat), (∀ q ∈ l, q.1 < N) → (∀ y ∈ acc, y.2 < N) →
+      ∀ y ∈ l.foldl (fun acc q => (q.2.kind, q.1) :: acc.filter (fun y => y.1 != q.2.kind)) acc, y.2 < N := by
+    intro l
+    induction l with
+    | nil => intro acc N _ ha y hy; exact ha y hy
+    | cons q r ih =>
+      intro acc N hl ha y hy
+      simp only [List.foldl_cons] at hy
+      refine ih _ N (fun z hz => hl z (List.mem_cons_of_mem _ hz)) ?_ y hy
+      intro z hz
+      rcases List.mem_cons.mp hz with rfl | hz
+      · exact hl q (by simp)
+      · exact ha z (List.mem_filter.mp hz).1
+  refine key _ [] _ ?_ (by simp) x hx'
+  intro q hq
+  have := (List.of_mem_zip hq).1
+  simpa using this
+
 /-- for the initial state of any program with a plain pre-run schedule -/
 theorem hook_clauses_silent_on_program (p : Program) (gateCont : Bool) (hp : p.Plain) (endT : Option Nat) (n : Nat) :
-    hookMonitor (hookView endT n (p.initState gateCont)) = none := by
-  refine hook_clauses_silent_on_model endT n _ (initState_inv p gateCont) (initState_hookInv p gateCont)
-    (initState_ok p gateCont hp) rfl rfl ?_ ?_
-  · intro x hx
-    have hx' : x ∈ ((List.range (p.pre.map (·.1)).length).zip p.pre).filterMap
-        (fun q => if q.2.2.1 = 0 then none else some (q.1, q.2.2.1)) := hx
-    show x.1 < (p.pre.map (·.1)).length
-    obtain ⟨y, hy, hfy⟩ := List.mem_filterMap.mp hx'
-    have hr := (List.of_mem_zip hy).1
-    split at hfy
-    · simp at hfy
-    · simp only [Option.some.injEq] at hfy
-      subst hfy
-      simpa using hr
-  · intro x hx
-    show x.2 < (p.pre.map (·.1)).length
-    -- the handles of the pre-run events are their creation indices
-    have hx' : x ∈ ((List.range (p.pre.map (·.1)).length).zip (p.pre.map (·.1))).foldl
-        (fun acc q => (q.2.kind, q.1) :: acc.filter (fun y => y.1 != q.2.kind)) [] := hx
-    have key : ∀ (l : List (Nat × Spec)) (acc : List (Nat × Nat)) (N : Nat), (∀ q ∈ l, q.1 < N) → (∀ y ∈ acc, y.2 < N) →
-        ∀ y ∈ l.foldl (fun acc q => (q.2.kind, q.1) :: acc.filter (fun y => y.1 != q.2.kind)) acc, y.2 < N := by
-      intro l
-      induction l with
-      | nil => intro acc N _ ha y hy; exact ha y hy
-      | cons q r ih =>
-        intro acc N hl ha y hy
-        simp only [List.foldl_cons] at hy
-        refine ih _ N (fun z hz => hl z (List.mem_cons_of_mem _ hz)) ?_ y hy
-        intro z hz
-        rcases List.mem_cons.mp hz with rfl | hz
-        · exact hl q (by simp)
-        · exact ha z (List.mem_filter.mp hz).1
-    refine key _ [] _ ?_ (by simp) x hx'
-    intro q hq
-    have := (List.of_mem_zip hq).1
-    simpa using this
+    hookMonitor (hookView endT n (p.initState gateCont)) = none :=
+  hook_clauses_silent_on_model endT n _ (initState_inv p gateCont) (initState_hookInv p gateCont)
+    (initState_ok p gateCont hp) rfl rfl (initState_hookOf_fresh p gateCont) (initState_lastKind_fresh p gateCont)
 
 end HappyModel.C01
